@@ -133,6 +133,12 @@ def find_lift(ctx, parent):
                 dc = [p for p in pl["p"] if isinstance(p, dict) and "dc" in p]
                 if dc and dc[0].get("n") == "Some" and mu.origin_local(parent, defs, pl["l"]) == pos_dest:
                     ok_ix = True
+                elif dc and dc[0].get("n") == "Continue":
+                    # `let i = v.iter().position(p)?;` - the Continue payload of Try::branch(position result)
+                    bd = mu.single_def(defs, mu.origin_local(parent, defs, pl["l"]))
+                    if bd is not None and bd[1] == "term" and bd[2].get("callee") and bd[2]["callee"]["def"].endswith("::Try>::branch") and \
+                            bd[2]["args"] and mu.origin_local(parent, defs, mu.op_local(bd[2]["args"][0])) == pos_dest:
+                        ok_ix = True
                 break
             cur = pl["l"]
         if not ok_ix:
